@@ -270,13 +270,34 @@ class Taint:
                                         T[tk] |= ls
                                         changed = True
                 if lab is None and not entered:
-                    out[None] = set(allin)
+                    # a closure argument contributes what it *returns* (computed below), not what it merely captures
+                    tys = self.F.crates[b["_crate"]]["types"]
+
+                    def direct_closure(a):
+                        if a[0] not in ("C", "M") or not any(cn in self.F.bodies for cn in clos.get(a[1][0], ())):
+                            return False
+                        ty = tys[b["locals"][a[1][0]]]
+                        while ty.startswith("&"):
+                            ty = ty[1:].lstrip()
+                            if ty.startswith("mut "):
+                                ty = ty[4:]
+                            if ty.startswith("'"):
+                                ty = ty.split(" ", 1)[1] if " " in ty else ty
+                        return ty.startswith("{closure@")
+                    is_clo = [direct_closure(a) for a in args]
+                    plain = set().union(*[ls for j, ls in enumerate(arg_ls) if not is_clo[j]]) if arg_ls else set()
+                    out[None] = set(plain)
+                    if dest and len(dest) == 1:
+                        for j, a in enumerate(args):
+                            if is_clo[j] and not clos[a[1][0]] <= clos[dest[0]]:
+                                clos[dest[0]] |= clos[a[1][0]]      # Box::new(closure), iterator adaptors: the result holds the closure
+                                changed = True
                     # closures among the arguments are called by the callee with (something derived from) the other arguments
                     for ai, a in enumerate(args):
                         if a[0] not in ("C", "M"):
                             continue
                         for cn in clos.get(a[1][0], ()):
-                            others = set().union(*[ls for j, ls in enumerate(arg_ls) if j != ai]) if len(arg_ls) > 1 else set()
+                            others = set().union(*[ls for j, ls in enumerate(arg_ls) if (j != ai or not is_clo[ai]) and not is_clo[j]]) if arg_ls else set()
                             r = self.enter_closure(cn, clo_caps, read_op, others, depth)
                             if r is not None:
                                 changed |= apply_upback(cn, r)
@@ -288,7 +309,7 @@ class Taint:
                         if a[0] in ("C", "M") and len(a[1]) == 1 and pts.get(a[1][0]):
                             ty = self.F.crates[b["_crate"]]["types"][b["locals"][a[1][0]]]
                             if ty.startswith("&mut") or ty.startswith("&'") and " mut " in ty[:16]:
-                                others = set().union(*[ls for j, ls in enumerate(arg_ls) if j != ai]) if len(arg_ls) > 1 else set()
+                                others = (set().union(*[ls for j, ls in enumerate(arg_ls) if j != ai and not is_clo[j]]) if len(arg_ls) > 1 else set()) | (out[None] - plain)
                                 for tk in pts[a[1][0]]:
                                     if others and not others <= T[tk]:
                                         T[tk] |= others
@@ -305,7 +326,7 @@ class Taint:
                     # references returned by a call may point into the referents of its reference arguments (iter(), deref(), as_ref() ...)
                     if len(dest) == 1 and not entered:
                         for a in args:
-                            if a[0] in ("C", "M") and pts.get(a[1][0]) and not pts[a[1][0]] <= pts[dest[0]]:
+                            if a[0] in ("C", "M") and pts.get(a[1][0]) and not pts[a[1][0]] <= pts[dest[0]] and not self.is_closure_ty(b, a[1][0]):
                                 pts[dest[0]] |= pts[a[1][0]]
                                 changed = True
             # closures created here and never called here (returned evaluators): analysed with what they capture
@@ -338,6 +359,10 @@ class Taint:
         self.last_T[name] = (T, pts)
         self.memo[mk] = (dict(ret), back, upback)
         return self.memo[mk]
+
+    def is_closure_ty(self, b, l):
+        ty = self.F.crates[b["_crate"]]["types"][b["locals"][l]]
+        return "{closure@" in ty[:24]
 
     def enter_closure(self, cn, clo_caps, read_op, param_labels, depth):
         cb = self.F.bodies.get(cn)
